@@ -48,6 +48,58 @@ def replay_chunk(groups):
     return res
 
 
+def _has_call(content):
+    for it in content:
+        if it["k"] in ("c", "inv"):
+            return True
+        for k in ("def", "c", "y", "n", "a", "b", "v", "dflt"):
+            if isinstance(it.get(k), list) and it.get("k") != "c" and _has_call(it[k]):
+                return True
+        for a in it.get("args", []) or []:
+            if isinstance(a, list):
+                if _has_call(a):
+                    return True
+            elif _has_call(a["val"]) or _has_call(a["key"]):
+                return True
+        for cs in it.get("cases", []) or []:
+            if _has_call(cs["val"]):
+                return True
+    return False
+
+
+def _pfn_with_inner_call(content):
+    """a parser-function item whose non-first arguments contain a call"""
+    for it in content:
+        k = it["k"]
+        if k == "if" and (_has_call(it["y"]) or _has_call(it["n"])):
+            return True
+        if k == "eq" and (_has_call(it["b"]) or _has_call(it["y"]) or _has_call(it["n"])):
+            return True
+        if k == "sw" and (_has_call(it["dflt"]) or any(_has_call(cs["val"]) for cs in it["cases"])):
+            return True
+        for f in ("def", "c", "y", "n", "a", "b", "v", "dflt"):
+            if isinstance(it.get(f), list) and _pfn_with_inner_call(it[f]):
+                return True
+        for a in it.get("args", []) or []:
+            if isinstance(a, list):
+                if _pfn_with_inner_call(a):
+                    return True
+            elif _pfn_with_inner_call(a["val"]):
+                return True
+    return False
+
+
+def outside_statement(c):
+    """expand_parserfns=False AND a disabled parser function keeps a call in a later argument: the code
+    leaves such calls as internal placeholders that are expanded (or not) depending on where the text travels;
+    the property does not say what must happen to calls inside a disabled parser function -> DRIFT only."""
+    if c["o"]["pfns"]:
+        return False
+    if _pfn_with_inner_call(c["page"]):
+        return True
+    return any(_pfn_with_inner_call(seg["c"]) for segs in c["lib"].values() for seg in segs)
+
+
 def run(tier: str) -> int:
     o = Outcome(PID, tier)
     o.rule = ("each (library, need_pre_expand set, page, selection/switch/hook combination) of Gen_Expander universe C13 is one case; "
@@ -73,6 +125,9 @@ def run(tier: str) -> int:
                 "expected_hooks": ob["exp_hooks"], "got_hooks": ob["hooks"]}
         if ob["exc"]:
             o.violation(case, f"expand() raised {ob['exc']}", cls="exception")
+        elif outside_statement(c):
+            o.note_drift({"page": ob["src"], "options": c["o"], "model_out": ob["exp_out"], "real_out": ob["out"],
+                          "note": "call inside a disabled parser function"})
         elif ex.norm_out(ob["out"]) != ob["exp_out"]:
             o.violation(case, f"selective expansion of {ob['src']!r} returned {ob['out']!r}; the specification gives {ob['exp_out']!r}", cls="out")
         else:
